@@ -47,6 +47,7 @@ func writeProgram(dir string, p *idl.Program, st idl.Style) (string, map[string]
 	for _, f := range p.Files {
 		txt := idl.Render(f, st)
 		texts[f.Name] = txt
+		os.MkdirAll(filepath.Dir(filepath.Join(dir, f.Name)), 0o755) // a file name may carry a directory
 		if err := os.WriteFile(filepath.Join(dir, f.Name), []byte(txt), 0o644); err != nil {
 			panic(err)
 		}
